@@ -177,6 +177,18 @@ def run(chk, repo, tier):
             ok = dr[k][0] and do[k][0]
             side = "" if ok else ("optimized: " + do[k][1] if not do[k][0] else "reference: " + dr[k][1])
             chk.ob("C14.R1", f"{oc.qualname} vs {rc.name}", k, ok, side, do[k][2])
+    # comparison with an int operand: the stored residue against the int as given, or against its residue — both siblings alike
+    from ..fieldcheck import compare_modes
+    for rc, oc in pairs:
+        Sr, So = FieldSubject(w, rc), FieldSubject(w, oc)
+        if Sr.kind != "FQ":
+            continue
+        mr, mo = compare_modes(Sr), compare_modes(So)
+        for meth in sorted(mr):
+            if "absent" in (mr[meth], mo[meth]):
+                continue
+            chk.ob("C14.R1", f"{oc.qualname} vs {rc.name}", f"{meth}(int): same treatment of the int operand", mr[meth] == mo[meth],
+                   f"reference: {mr[meth]}, optimized: {mo[meth]}", oc.module.relpath)
     sgn0_obligations(chk, repo, w)
     # x ** n for arbitrary n: both files' __pow__ are shown to return self^n (C08.R5/R6 re-stated) — hence to agree
     from .C08 import pow_obligations
